@@ -109,6 +109,46 @@ def odd_tree(rng, maxfiles: int = 6):
     return _consistent(sorted(ents))
 
 
+# --------------------------------------------------------------------------------- several roots
+MR_TEMPLATE = ["p/__init__.py", "p/__init__.pyi", "p/m.py", "p/m.pyi", "p/q/__init__.py", "p/q/m.py", "p/q/m.pyi",
+               "p/q/m/__init__.py", "p/q/m/n.py", "p/m/__init__.py", "m.py", "m.pyi", "q/m.py", "q/__init__.py",
+               "p/q/r/__init__.pyi", "p/q/r/m.py"]
+MR_ROOTS = ["r", "s", "t", "r/u"]
+
+
+def multiroot_case(rng):
+    """Two to four roots holding overlapping module names; mypy_path is a subset of the roots in some order."""
+    roots = rng.sample(MR_ROOTS, rng.randint(2, 3))
+    ents = set()
+    for r in roots:
+        for f in rng.sample(MR_TEMPLATE, rng.randint(1, 5)):
+            ents.add((r + "/" + f, "f"))
+    ents = _consistent(sorted(ents))
+    files = [p for p, k in ents]
+    mp = rng.sample(roots, rng.randint(0, len(roots)))
+    epb = rng.random() < 0.4
+    ns = epb or rng.random() < 0.7
+    cwd = rng.choice(["", "o"] + roots)
+    if cwd and not any(p == cwd or p.startswith(cwd + "/") for p, _ in ents):
+        ents.append((cwd, "d"))
+    style = rng.choice(["files", "files-rev", "files-shuffled", "roots", "subset"])
+    if style == "files":
+        args = sorted(files)
+    elif style == "files-rev":
+        args = sorted(files, reverse=True)
+    elif style == "files-shuffled":
+        args = list(files)
+        rng.shuffle(args)
+    elif style == "roots":
+        args = [r for r in roots if any(p.startswith(r + "/") for p in files)]
+        rng.shuffle(args)
+    else:
+        args = rng.sample(files, rng.randint(1, len(files)))
+    pkg = rng.choice([None, None, "p", "p.q", "q"])
+    return Case(entries=ents, args=args, cwd=cwd, mypy_path=mp, ns=ns, epb=epb, via_env=rng.random() < 0.25, pkg=pkg,
+                kind="multiroot:" + style)
+
+
 def _consistent(ents):
     """Drop entries that would need a path to be both a file and a directory."""
     files = {p for p, k in ents if k == "f"}
